@@ -85,6 +85,13 @@ TEMPLATES = {
   # byte reaches far beyond the TCP header
   'tcp_long':  lambda n: ETH + [0x08, 0x00],
   'tcp_mptcp': lambda n: ETH + [0x08, 0x00],
+  # complete DHCP message whose option area holds two long option instances (200 and 100 value bytes) with a *symbolic code*: when the codes
+  # coincide the parser concatenates the instances (RFC 3396) into a value longer than 255 bytes, which must still print and re-serialise
+  'dhcp_long': lambda n: ETH + [0x08, 0x00],
+  # a frame of ordinary size (<= 1500 bytes of payload) made of stacked 802.1Q tags / MPLS labels: every level is another nested parser call.
+  # Run under CPython's default recursion limit (1000), which is what a POX process has.
+  'vlan_stack': lambda n: ETH + [0x81, 0x00],
+  'mpls_stack': lambda n: ETH + [0x88, 0x47],
 }
 
 
@@ -128,6 +135,27 @@ def h_template(ctx, name, n, proto=None, ports=None):
       # MPTCP option (kind 30): length, subtype/version, flags and four more bytes symbolic, the rest of a 24-byte option area concrete
       opts = [30, sym[0], sym[1], sym[2]] + list(sym[3:7]) + [1, 2, 3, 4, 5, 6, 7, 8, 9, 10, 11, 12, 13, 14, 15, 16]; off = 11
     body = iph + [0x12, 0x34, 0, 80, 0, 0, 0, 1, 0, 0, 0, 2, off << 4, 0x10, 0x20, 0, 0, 0, 0, 0] + opts + [(k * 7) & 0xff for k in range(n - 14 - 20 - 20 - len(opts))]
+  if name == 'dhcp_long':
+    sym = body
+    codes = [sym[0], ctx.Ite((sym[1] & 1) == 1, sym[0], 60)]          # the second instance repeats the first code, or is a vendor-class option
+    opts = []
+    for c, ln in zip(codes, (200, 100)): opts += [c, ln] + [(c0 * 13 + ln) & 0xff for c0 in range(ln)]
+    opts += [255]
+    bootp = [1, 1, 6, 0] + list(sym[3:7]) + [0] * 20 + [2, 0, 0, 0, 0, 1] + [0] * 10 + [0] * 192 + [0x63, 0x82, 0x53, 0x63]
+    udplen = 8 + len(bootp) + len(opts); iplen = 20 + udplen
+    body = [0x45, 0, iplen >> 8, iplen & 255, 0, 1, 0, 0, 64, 17, 0, 0, 0, 0, 0, 0, 255, 255, 255, 255] + [0, 68, 0, 67, udplen >> 8, udplen & 255, 0, 0] + bootp + opts
+  deep = name in ('vlan_stack', 'mpls_stack')
+  if name == 'vlan_stack':
+    k = (n - 14 - 4) // 4
+    sym = body
+    body = []
+    for i in range(k): body += ([sym[2 * i], sym[2 * i + 1]] if i < 3 else [0x20 | (i & 15), i & 0xff]) + [0x81, 0x00]
+    body += [sym[6], sym[7], sym[8], sym[9]]               # innermost tag: TCI and ethertype symbolic
+  if name == 'mpls_stack':
+    k = (n - 14) // 4
+    sym = body
+    body = []
+    for i in range(k): body += [0, (i >> 4) & 0xff, ((i & 15) << 4) | (0 if i < k - 1 else 1), 64] if i >= 2 else [sym[4 * i], sym[4 * i + 1], sym[4 * i + 2] & 0xfe, sym[4 * i + 3]]
   if name == 'lldp4' and len(body) >= 18:
     body[0:2] = [2, 7]; body[9:11] = [4, 3]; body[14:16] = [6, 2]
   if name == 'ipv6' and len(body) >= 40:
@@ -136,8 +164,14 @@ def h_template(ctx, name, n, proto=None, ports=None):
   if name == 'ipv6' and proto is not None and len(body) >= 8:
     body[0] = 0x60 | (body[0] & 0x0f); body[6] = proto
   raw = env.tobytes(ctx, pre + body)
-  p = pkt_mod.ethernet(raw)
-  examine(ctx, p, raw)
+  import sys
+  old = sys.getrecursionlimit()
+  if deep: sys.setrecursionlimit(1000 + len(__import__('inspect').stack(0)) - 12)       # as if the frame handler ran ~12 frames below the interpreter's top level
+  try:
+    p = pkt_mod.ethernet(raw)
+    examine(ctx, p, raw)
+  finally:
+    sys.setrecursionlimit(old)
 
 
 def obligations(tier):
@@ -148,7 +182,9 @@ def obligations(tier):
                      ('mpls', [14, 18, 22]), ('llc', [14, 17, 18, 22, 24]), ('ipv6', [14, 30, 54, 58])):
     for n in lens: t.append(dict(name=name, n=n))
   for n in [32, 34, 36] + ([38] if thorough else []): t.append(dict(name='lldp4', n=n))
-  t.append(dict(name='tcp_long', n=330)); t.append(dict(name='tcp_mptcp', n=90))
+  t.append(dict(name='tcp_long', n=330)); t.append(dict(name='tcp_mptcp', n=90)); t.append(dict(name='dhcp_long', n=30))
+  for n in (1378, 1458, 1514): t.append(dict(name='vlan_stack', n=n))
+  for n in (1378, 1514): t.append(dict(name='mpls_stack', n=n))
   for proto, lens in ((1, [34, 38, 42, 46, 62, 66, 70]), (6, [34, 54, 56] + ([58, 62] if thorough else [])), (17, [34, 42, 46]), (2, [34, 42, 46, 50, 54, 58]),
                       (47, [34, 38, 42, 46]), (99, [34, 38])):
     for n in lens: t.append(dict(name='ip', n=n, proto=proto))
@@ -157,7 +193,7 @@ def obligations(tier):
     for n in lens: t.append(dict(name='ip', n=n, proto=17, ports=ports))
   for proto, lens in ((58, [54, 58, 62, 78]), (17, [54, 62]), (6, [54, 74]), (0, [54, 62, 70]), (43, [58, 62]), (44, [55, 58, 61, 62]), (60, [58, 62])):
     for n in lens: t.append(dict(name='ipv6', n=n, proto=proto))
-  if not thorough: t = [c for i, c in enumerate(t) if c['n'] <= 58 or (c['name'] == 'ipv6' and c.get('proto') in (43, 44, 60)) or c.get('ports') == (68, 67) or c.get('proto') == 1 or c['name'] in ('tcp_long', 'tcp_mptcp')]
+  if not thorough: t = [c for i, c in enumerate(t) if c['n'] <= 58 or (c['name'] == 'ipv6' and c.get('proto') in (43, 44, 60)) or c.get('ports') == (68, 67) or c.get('proto') == 1 or c['name'] in ('tcp_long', 'tcp_mptcp', 'dhcp_long', 'vlan_stack', 'mpls_stack')]
   BOUNDS[tier] = dict(random_frame_lengths=rnd, templates=len(t), template_note="dispatch fields fixed, all other bytes (incl. every length/offset field) symbolic, "
                       "frame length = truncation point")
   return [
